@@ -139,7 +139,22 @@ func c16Gen(rng *verifsim.RNG, idx int, tier string) *Plan {
 		// countdown
 		p.Class += "+auto-prefix"
 		v, q := genLifetimes(rng, false, true)
-		s.Prefixes = append(s.Prefixes, PrefixSpec{Prefix: sp("::/64"), Valid: v, Preferred: q})
+		ap := PrefixSpec{Prefix: sp("::/64"), Valid: v, Preferred: q}
+		if rng.Bool(0.4) {
+			// the automatic prefix is itself deprecated ...
+			ap.Deprecated = true
+			vd := time.Duration(rng.Range(5, 60)) * time.Second
+			qd := time.Duration(1 + rng.Int63n(int64(vd)))
+			ap.Valid, ap.Preferred = sp(vd.String()), sp(qd.String())
+			deadlines = append(deadlines, vd, qd)
+			if rng.Bool(0.5) {
+				// ... and the address listing fails for a while after it has
+				// worked: whatever is sent then still counts down
+				p.Class += "+listing-fails"
+				p.Faults = append(p.Faults, Fault{Seam: "rtnl.addr", From: int64(rng.Dur(time.Second, time.Duration(horizon))), Count: rng.Range(1, 4), Err: []string{"nl.EINVAL", "opaque"}[rng.Intn(2)]})
+			}
+		}
+		s.Prefixes = append(s.Prefixes, ap)
 		iw := &p.Nodes[0].Ifaces[0]
 		iw.Addrs = pickAddrs(rng, iw.LL, 5)
 		for i, k := 0, rng.Range(1, 3); i < k; i++ {
